@@ -10,9 +10,18 @@
        ONNX Loop with body  s' = a*s + b*iter + c ; cond_out = s' < T ; scan output s'
                                                            -> {"state":s,"stacked":[..]}
   {"op":"while","a":a,"c":c,"T":t,"s0":s,"fuel":n}        JAX while  (s < T) (a*s + c)  -> {"state":s|null}
+  {"op":"mask","predShape":[..],"stateRank":n,"axes":[..]}   freeze mask of the vmapped while: shape of
+       Unsqueeze(pred, axes) and what the scheme prescribes   -> {"shape":[..],"prescribedAxes":[..],"prescribedShape":[..]}
+  {"op":"bcast","maskShape":[..],"stateShape":[..]}         for every index of the state (row-major) the flat
+       position of the mask element that broadcasting reads (`bproj`)           -> {"reads":[..]}
+  {"op":"bodies","loops":[[code,const],..]}                 body each loop gets (`exportMemo`, key = code and
+       closure, empty memo) and without any memo                                -> {"bodies":[..],"own":[..]}
+  {"op":"scanM","M":m,"xs":[..]}                            scan Loop with trip count M, body (c+x, c*2+x)
+                                                           -> {"carry":c,"stacked":[..],"jaxCarry":c,"jaxStacked":[..]}
 -/
 import Lean.Data.Json
 import J2O.Model.C06
+import J2O.Model.C06R2
 open Lean J2O.C06
 
 abbrev R := Except String
@@ -43,6 +52,22 @@ def wiringJ (w : LoopWiring) : Json :=
 def getNat (j : Json) (k : String) : R Nat := do (← j.getObjVal? k).getNat?
 def getInt (j : Json) (k : String) : R Int := do (← j.getObjVal? k).getInt?
 def getBool (j : Json) (k : String) : R Bool := do (← j.getObjVal? k).getBool?
+
+def getNats (j : Json) (k : String) : R (List Nat) := do
+  let a ← (← j.getObjVal? k).getArr?
+  a.toList.mapM fun x => x.getNat?
+
+def natsJ (l : List Nat) : Json := Json.arr (l.toArray.map fun (k : Nat) => Json.num (Int.ofNat k))
+def intsJ (l : List Int) : Json := Json.arr (l.toArray.map fun (k : Int) => Json.num (JsonNumber.fromInt k))
+
+/-- all multi-indices of a shape in row-major order -/
+def allIdx : List Nat → List (List Nat)
+  | [] => [[]]
+  | d :: ds => (List.range d).flatMap fun i => (allIdx ds).map (i :: ·)
+
+/-- row-major flat position -/
+def ravel (shape idx : List Nat) : Nat :=
+  (shape.zip idx).foldl (fun acc (di : Nat × Nat) => acc * di.1 + di.2) 0
 
 def handle (line : String) : R Json := do
   let j ← Json.parse line
@@ -87,6 +112,33 @@ def handle (line : String) : R Json := do
     match whileFuel (fun s : Int => decide (s < t)) (fun s => a * s + c) (← getNat j "fuel") (← getInt j "s0") with
     | some s => pure (Json.mkObj [("state", Json.num s)])
     | none => pure (Json.mkObj [("state", Json.null)])
+  | "mask" =>
+    let ps ← getNats j "predShape"
+    let n ← getNat j "stateRank"
+    let axes ← getNats j "axes"
+    pure (Json.mkObj [("shape", natsJ (unsqueezeShape ps axes)), ("prescribedAxes", natsJ (maskAxes ps.length n)),
+                      ("prescribedShape", natsJ (maskShape ps n))])
+  | "bcast" =>
+    let ms ← getNats j "maskShape"
+    let ss ← getNats j "stateShape"
+    pure (Json.mkObj [("reads", natsJ ((allIdx ss).map fun idx => ravel ms (bproj ms idx)))])
+  | "bodies" =>
+    let a ← (← j.getObjVal? "loops").getArr?
+    let loops ← a.toList.mapM fun (x : Json) => do
+      let p ← x.getArr?
+      match p.toList with
+      | [c, m] => pure ((← c.getNat?), (← m.getInt?))
+      | _ => throw "bad-loop"
+    pure (Json.mkObj [("bodies", intsJ (exportMemo (fun e : Nat × Int => e) (fun e => e.2) [] loops)),
+                      ("own", intsJ (exportBodies (fun e : Nat × Int => e.2) loops))])
+  | "scanM" =>
+    let a ← (← j.getObjVal? "xs").getArr?
+    let xs ← a.toList.mapM fun (x : Json) => x.getInt?
+    let f : Int → Int → Int × Int := fun c x => (c + x, c * 2 + x)
+    let r := scanSchemeM (← getNat j "M") f 0 xs
+    let q := scanJ f 0 xs
+    pure (Json.mkObj [("carry", Json.num (JsonNumber.fromInt r.1)), ("stacked", intsJ r.2),
+                      ("jaxCarry", Json.num (JsonNumber.fromInt q.1)), ("jaxStacked", intsJ q.2)])
   | o => throw s!"bad-op:{o}"
 
 partial def loop (h : IO.FS.Stream) : IO Unit := do
